@@ -302,6 +302,32 @@ def translate(repo, only=None):
         tr.stmts(f.body, on_stmt)
         if found['assign'] is None:
             raise Untranslatable('slice assignment into out_crop_bufs not found')
+        # structure of the loop (fail closed): one loop over range(len(peaks)); the clear  out_crop_bufs[i] = 0  and the slice assignment are
+        # unconditional statements of its body, in this order; nothing else writes into out_crop_bufs; no iteration is cut short
+        loops = [n for n in f.body if isinstance(n, ast.For)]
+        if len(loops) != 1 or ast.unparse(loops[0].iter) != 'range(len(peaks))' or ast.unparse(loops[0].target) != 'i':
+            raise Untranslatable('crop_disks_from_frame_slicing: exactly one loop `for i in range(len(peaks))` expected')
+        body = loops[0].body
+        if any(isinstance(n, (ast.Continue, ast.Break, ast.Return)) for st in body for n in ast.walk(st)):
+            raise Untranslatable('crop_disks_from_frame_slicing: an iteration of the loop over the peaks can end early (continue / break / return)')
+
+        def writes_out(st):
+            tg = st.targets if isinstance(st, ast.Assign) else ([st.target] if isinstance(st, (ast.AugAssign, ast.AnnAssign)) else [])
+            return any(isinstance(t, ast.Subscript) and ast.unparse(t.value).startswith('out_crop_bufs') for t in tg)
+        top = [st for st in body if writes_out(st)]
+        allw = [n for st in body for n in ast.walk(st) if isinstance(n, (ast.Assign, ast.AugAssign, ast.AnnAssign)) and writes_out(n)]
+        if len(allw) != 2 or len(top) != 2:
+            raise Untranslatable('crop_disks_from_frame_slicing: the clear of the slot and the slice assignment must be the only writes into out_crop_bufs and unconditional '
+                                 '(%d writes, %d of them unconditional)' % (len(allw), len(top)))
+        if not (ast.unparse(top[0].targets[0]) == 'out_crop_bufs[i]' and isinstance(top[0].value, ast.Constant) and top[0].value.value == 0):
+            raise Untranslatable('crop_disks_from_frame_slicing: the first write into the slot is not `out_crop_bufs[i] = 0`')
+        # the frame slice is converted to the array type of the BUFFER (the frame may be a sparse array, the buffer is dense)
+        pre = [ast.unparse(st) for st in f.body if isinstance(st, ast.Assign)]
+        val = top[1].value
+        if 'target_backend = sparseconverter.get_backend(out_crop_bufs)' not in pre or not (
+                isinstance(val, ast.Call) and ast.unparse(val.func) == 'sparseconverter.for_backend' and len(val.args) == 2 and not val.keywords
+                and isinstance(val.args[0], ast.Subscript) and ast.unparse(val.args[0].value) == 'frame' and ast.unparse(val.args[1]) == 'target_backend'):
+            raise Untranslatable('crop_disks_from_frame_slicing: the frame slice is not converted with sparseconverter.for_backend(frame[...], get_backend(out_crop_bufs))')
         env, tsl, ssl = found['assign']
         t2 = Tr(atoms, tr.helpers)
         t2.env = env
